@@ -31,8 +31,9 @@ theorem encoded_length (is : List Instr) : (encodeInstrs is).length = codeSize i
 
 /-! ### L6: the reference reader inverts the reference printer (unbounded: every expression tree of the fragment) -/
 
-/-- 7(b), expression fragment (literals, symbols, variables of the four kinds, unary minus / not, the 17 infix operators,
-    `field`, function calls with any number of arguments; nesting depth and width unbounded): the token list the reference
+/-- 7(b), expression fragment (literals, symbols, variables of the four kinds, unary minus / not, all 19 binary operators — the 17
+    infix ones fully parenthesised, `sprite a intersects|within b` as the prefix form —, `field`, function calls with any number of
+    arguments, linear lists; nesting depth and width unbounded): the token list the reference
     printer writes (fully parenthesised, as the decompiler prints) is read back by the reference reader as the same tree, at
     every precedence level and followed by anything that cannot continue an expression.
     `Frag env e` says that `env` classifies every identifier the way the tree does (a local is not declared global, a called
@@ -48,20 +49,22 @@ theorem read_print_expr_whole (env : Env) (e : Expr) (h : Frag env e) (F : Nat) 
   have := read_print_expr env e h 1 (Nat.le_refl 1) (by omega) [] trivial trivial F hF
   simpa [pExpr] using this
 
-/-- argument lists: `, a, b, c )` -/
-theorem read_print_args (env : Env) (es : List Expr) (h : FragL env es) (rest : List Tok) (F : Nat) (hF : fuelOfL es + 1 ≤ F) :
-    pMore env F (prTail es ++ .p .rp :: rest) = some (es, .p .rp :: rest) :=
-  rp_more env es h rest F hF
+/-- argument / element lists: `, a, b, c )` and `, a, b, c ]` -/
+theorem read_print_args (env : Env) (es : List Expr) (h : FragL env es) (c : Tok) (hc : c = .p .rp ∨ c = .p .rb)
+    (rest : List Tok) (F : Nat) (hF : fuelOfL es + 1 ≤ F) :
+    pMore env F (prTail es ++ c :: rest) = some (es, c :: rest) :=
+  rp_more env es h c hc rest F hF
 
-/-- non-vacuity: `((a - (b - 1)) * f(-x, not (a = "s")))` with `a` a parameter, `b` a global, `x` a local is in the fragment,
+/-- non-vacuity: `((a - (b - 1)) * f(-x, not (a = "s"), [sprite 1 within (x + 2), []]))` with `a` a parameter, `b` a global, `x` a local is in the fragment,
     so the theorem applies to it (and the reader indeed returns the tree) -/
 example :
     let env : Env := { params := ["a".toList], globals := ["b".toList] }
     let e : Expr := .bin .mul (.bin .sub (.var .param "a".toList) (.bin .sub (.var .glob "b".toList) (.int 1)))
-      (.call "f".toList [.un .neg (.var .loc "x".toList), .un .not (.bin .eq (.var .param "a".toList) (.str "s".toList))])
+      (.call "f".toList [.un .neg (.var .loc "x".toList), .un .not (.bin .eq (.var .param "a".toList) (.str "s".toList)),
+        .list [.bin .within (.int 1) (.bin .add (.var .loc "x".toList) (.int 2)), .list []]])
     Frag env e ∧ (pExpr env (fuelOf e + 6) (prE e)).map (·.1.toSX.render) = some e.toSX.render := by
   refine ⟨?_, by decide +kernel⟩
-  simp only [Frag, FragL, PlainId, BinOp.isInfix]
+  simp only [Frag, FragL, PlainId]
   decide +kernel
 
 /-! ### precedence facts of the reference reading (what makes a dropped parenthesis visible) -/
